@@ -2120,3 +2120,114 @@ Proof.
     + cbn [oo]. apply destroy_ok; assumption.
     + intros ? E'; discriminate.
 Qed.
+
+(* ---------------------------------------------------------------------------------------------- *)
+(** * F4. histories *)
+
+Lemma run_Inv : forall kl F ops w, Inv kl w -> Forall (wf_op kl) ops ->
+  Inv kl (fst (run cfg_fixed F w ops)) /\ ~ In UB (snd (run cfg_fixed F w ops)).
+Proof.
+  intros kl F ops; induction ops as [|x ops IH]; intros w HI Hwf.
+  - simpl. split; [exact HI|intros []].
+  - inversion Hwf as [|? ? Hx Hrest]; subst. cbn [run].
+    destruct (step_Inv kl F w x HI Hx) as [HI' Hub].
+    destruct (step cfg_fixed F w x) as [w' out]. cbn [fst snd] in *.
+    destruct (IH w' HI' Hrest) as [HI'' Hubs].
+    destruct (run cfg_fixed F w' ops) as [w'' outs]. cbn [fst snd] in *.
+    split; [exact HI''|]. intros [E|Hin]; [apply Hub; exact E|apply Hubs; exact Hin].
+Qed.
+
+Theorem invariant_reachable : forall kl ops F, Forall (wf_op kl) ops -> Inv kl (run_world cfg_fixed F ops).
+Proof. intros kl ops F H. unfold run_world. apply (run_Inv kl F ops world0 (Inv_world0 kl) H). Qed.
+
+Theorem never_ub : forall kl ops F, Forall (wf_op kl) ops ->
+  crashed (run_world cfg_fixed F ops) = false /\ ~ In UB (snd (run cfg_fixed F world0 ops)).
+Proof.
+  intros kl ops F H. destruct (run_Inv kl F ops world0 (Inv_world0 kl) H) as [HI Hub]. split; [apply (inv_nc HI)|exact Hub].
+Qed.
+
+(* what Inv says about the allocator *)
+Lemma Inv_clean : forall kl w, Inv kl w -> errs (wm w) = [] /\ lost (wm w) = [] /\ replay (rev (trace (wm w))) [] = Some (hp (wm w)).
+Proof.
+  intros kl w HI. destruct (g_mem _ (inv_heap HI)) as [He Hl _ _ Hr]. auto.
+Qed.
+
+Definition all_gone (w : world) : Prop := forall j, get_obj w j = None.
+
+Theorem balanced_when_all_gone : forall kl w, Inv kl w -> all_gone w ->
+  balanced (rev (trace (wm w))) /\ hp (wm w) = [] /\ lost (wm w) = [] /\ errs (wm w) = [].
+Proof.
+  intros kl w HI Hg. destruct (Inv_clean kl w HI) as [He [Hl Hr]].
+  assert (Hh : hp (wm w) = []).
+  { destruct (hp (wm w)) as [|[id b] t] eqn:E; [reflexivity|]. exfalso.
+    destruct (g_complete _ (inv_heap HI) id b) as [j [f Hf]]; [rewrite E; left; reflexivity|].
+    rewrite (cur_none _ _ (Hg j)) in Hf. discriminate. }
+  unfold balanced. rewrite Hr, Hh. auto.
+Qed.
+
+Theorem safe_from_Inv : forall kl w x o oother, Inv kl w -> get_obj w (target x) = Some o ->
+  (forall o2, oother = Some o2 -> exists k, get_obj w k = Some o2) -> safe cfg_fixed o oother x = true.
+Proof.
+  intros kl w x o oother HI Ho Hoth. apply safe_of_inv.
+  - apply (inv_obj HI _ _ Ho).
+  - intros o2 E. destruct (Hoth _ E) as [k Hk]. apply (inv_obj HI _ _ Hk).
+Qed.
+
+(* the object-level content of Inv, spelled out with the model's own boolean predicates *)
+Theorem Inv_objects : forall kl w j o, Inv kl w -> get_obj w j = Some o ->
+  no_garbage o = true /\ aux_ok o = true /\ clear_safe o = true
+  /\ (ndim o = 0 -> forall f, is_aux_field f = false -> get o f = Null)
+  /\ (ndim o <> 0 -> built o = true /\ has_extents o = true)
+  /\ (forall f id b, get o f = Owned id b -> b = claim o f /\ lookup id (hp (wm w)) = Some b).
+Proof.
+  intros kl w j o HI Ho. destruct (inv_obj HI _ _ Ho) as [Io _].
+  split; [apply no_garbage_pointwise; [apply (oi_keys Io)|apply (oi_ok Io)]|].
+  split; [apply aux_ok_of_inv; exact Io|]. split; [apply clear_safe_of_inv; exact Io|].
+  split; [apply (oi_tbl0 Io)|]. split; [intros E; split; [apply built_of_inv|apply has_extents_of_inv]; assumption|].
+  intros f id b Hf. split; [apply (oi_claims Io _ _ _ Hf)|].
+  apply lookup_in; [apply (mo_nodup (g_mem _ (inv_heap HI)))|].
+  apply (g_sound _ (inv_heap HI) j f). rewrite (cur_some _ _ _ Ho). exact Hf.
+Qed.
+
+(** the side conditions are needed: without them the MODEL leaves the invariant (these are statements about
+    ObjModel's totalised inputs, not about the code: fitsio.h:193 and fit.h:26 reject such inputs) *)
+Definition file0 : file :=
+  {| f_open_fails := false; f_fail := PNone; f_ndim := 0; f_orders := []; f_nknots := []; f_naxes := []; f_aux := [] |}.
+Lemma wf_needed_ndim0 : lost (wm (run_world cfg_fixed no_fault [ONew 0; ORead 0 file0; ORead 0 file0])) <> [].
+Proof. vm_compute. discriminate. Qed.
+Lemma wf_needed_slot : hp (wm (run_world cfg_fixed no_fault [ONewRead 7 fileA])) <> [].
+Proof. vm_compute. discriminate. Qed.
+Lemma wf_needed_keylen :
+  errs (wm (run_world cfg_fixed no_fault [ONew 0; OWriteKey 0 false key2; OWriteKey 0 false {| akey := 2; aklen := 9; avlen := 3 |}; ODestroy 0])) <> [].
+Proof. vm_compute. discriminate. Qed.
+
+Theorem balanced_after_history : forall kl ops F, Forall (wf_op kl) ops -> all_gone (run_world cfg_fixed F ops) ->
+  balanced (rev (trace (wm (run_world cfg_fixed F ops)))) /\ hp (wm (run_world cfg_fixed F ops)) = []
+  /\ lost (wm (run_world cfg_fixed F ops)) = [] /\ errs (wm (run_world cfg_fixed F ops)) = [].
+Proof. intros kl ops F H Hg. apply (balanced_when_all_gone kl _ (invariant_reachable kl ops F H) Hg). Qed.
+
+(* at every moment of a history: no allocator error, nothing lost, the strict replay of the trace is the live heap *)
+Theorem clean_at_every_moment : forall kl ops F, Forall (wf_op kl) ops ->
+  errs (wm (run_world cfg_fixed F ops)) = [] /\ lost (wm (run_world cfg_fixed F ops)) = []
+  /\ replay (rev (trace (wm (run_world cfg_fixed F ops)))) [] = Some (hp (wm (run_world cfg_fixed F ops))).
+Proof. intros kl ops F H. apply (Inv_clean kl _ (invariant_reachable kl ops F H)). Qed.
+
+(* a non-trivial history that satisfies the side conditions (two objects; read, new key, existing key, move
+   assignment that destroys a populated table, convolution, permutation, a read that fails at a knot vector) *)
+Definition kl5 : nat -> nat := fun _ => 5.
+Definition fileB : file :=
+  {| f_open_fails := false; f_fail := PNone; f_ndim := 2; f_orders := [2; 1]; f_nknots := [7; 6]; f_naxes := [4; 4];
+     f_aux := [({| akey := 1; aklen := 5; avlen := 9 |}, 11); ({| akey := 3; aklen := 5; avlen := 2 |}, 11)] |}.
+Definition h_example : list op :=
+  [ONew 0; ORead 0 fileB; OWriteKey 0 false key2; OWriteKey 0 false {| akey := 1; aklen := 5; avlen := 30 |};
+   ONew 1; ORead 1 fileA; OMoveAssign 1 0; OConvolve 1 0 2; OPermute 1 [1; 0]; ORead 0 fileT; ONewRead 2 fileT; OEq 0 1].
+
+Lemma h_example_wf : Forall (wf_op kl5) h_example.
+Proof.
+  unfold h_example. repeat constructor; simpl; try lia; try discriminate; auto.
+Qed.
+Lemma h_example_wf_destroy : Forall (wf_op kl5) (h_example ++ [ODestroy 0; ODestroy 1]).
+Proof. apply Forall_app. split; [exact h_example_wf|]. repeat constructor; simpl; lia. Qed.
+
+Lemma all_gone_4 : forall w, objs w = [None; None; None; None] -> all_gone w.
+Proof. intros w H j. unfold get_obj. rewrite H. destruct j as [|[|[|[|[|j]]]]]; reflexivity. Qed.
